@@ -80,7 +80,7 @@ def e2_part(rep, tier):
             if op == "add":
                 n = 2 * api.type_len(ty)
             dom = FPDomain()
-            res = api.run(e, dom, op, ty, lambda d, n=n: [d.sym("i%d" % i) for i in range(n)])
+            res = api.run(e, dom, op, ty, lambda d, n=n: [d.sym("i%d" % i) for i in range(n)], merge=False)
             if any(p.panic is not None for (p, _, _) in res):
                 rep.add(Obligation("%s:%s:no-panic" % (op, ty), "E2-paths", "no panic path", "violated", 0.0,
                                    detail="panic: %s" % [p.panic for (p, _, _) in res if p.panic][0], role="kernel-panic"))
